@@ -21,12 +21,14 @@ import (
 	"sync"
 
 	"github.com/vektah/gqlparser/v2"
+	"github.com/vektah/gqlparser/v2/ast"
 	"github.com/vektah/gqlparser/v2/validator"
 
 	"github.com/99designs/gqlgen/complexity"
 	"github.com/99designs/gqlgen/graphql"
 	"github.com/99designs/gqlgen/graphql/handler"
 	"github.com/99designs/gqlgen/graphql/handler/extension"
+	"github.com/99designs/gqlgen/graphql/handler/lru"
 	"github.com/99designs/gqlgen/graphql/handler/transport"
 )
 
@@ -46,6 +48,17 @@ type C14Case struct {
 	Costs  map[string]C14Cost `json:"costs"`
 	Limits []int64            `json:"limits"`
 	Fixed  bool               `json:"fixed"` // FixedComplexityLimit (one server per limit) instead of ComplexityLimit{Func}
+	// History mode (spec/ComplexityGate.tla): ONE server, optionally with a query
+	// cache, receives the steps in order; Limits is unused.
+	Cache string    `json:"cache"` // "" / none | map | lru | lru1
+	Hist  []C14Step `json:"hist"`
+}
+
+// C14Step is one request of a history.
+type C14Step struct {
+	Query string         `json:"query"` // "" = the case's query text
+	Vars  map[string]any `json:"vars"`
+	Limit int64          `json:"limit"`
 }
 
 type C14Run struct {
@@ -65,6 +78,7 @@ type C14Result struct {
 	ID      string   `json:"id"`
 	Calc    int64    `json:"calc"`
 	CalcErr string   `json:"calc_err,omitempty"`
+	Calcs   []int64  `json:"calcs"` // history mode: complexity.Calculate per step
 	Runs    []C14Run `json:"runs"`
 	Err     string   `json:"error,omitempty"`
 }
@@ -96,6 +110,8 @@ func C14Apply(c C14Cost, child int, x int64) int {
 		return child - int(c.C)
 	case "arg":
 		return c14SatAdd(child, int(x))
+	case "argmul":
+		return c14SatMul(c14SatAdd(child, 1), int(x))
 	}
 	return 0
 }
@@ -186,53 +202,132 @@ func c14Server(es graphql.ExecutableSchema, fixed bool, limit int64) *handler.Se
 	return srv
 }
 
+// c14Calc is complexity.Calculate on the operation as the server would see it.
+func c14Calc(es graphql.ExecutableSchema, query, opName string, reqVars map[string]any) (calc int64, calcErr, err string) {
+	defer func() {
+		if r := recover(); r != nil {
+			calcErr = fmt.Sprintf("panic: %v", r)
+		}
+	}()
+	doc, errs := gqlparser.LoadQuery(es.Schema(), query)
+	if errs != nil {
+		return 0, "", "query does not validate: " + errs.Error()
+	}
+	op := doc.Operations.ForName(opName)
+	if op == nil {
+		return 0, "", "operation not found: " + opName
+	}
+	// decode variables like the POST transport does (json.Number)
+	var rawVars map[string]any
+	vb, _ := json.Marshal(reqVars)
+	dec := json.NewDecoder(bytes.NewReader(vb))
+	dec.UseNumber()
+	if e := dec.Decode(&rawVars); e != nil {
+		return 0, "", "variables: " + e.Error()
+	}
+	vars, e := validator.VariableValues(es.Schema(), op, rawVars)
+	if e != nil {
+		return 0, "", "variables: " + e.Error()
+	}
+	return int64(complexity.Calculate(context.Background(), es, op, vars)), "", ""
+}
+
+// c14Request sends one HTTP POST to srv and reports what happened.
+func c14Request(srv *handler.Server, query, opName string, vars map[string]any, lim int64) C14Run {
+	if vars == nil {
+		vars = map[string]any{}
+	}
+	body, _ := json.Marshal(map[string]any{"query": query, "operationName": opName, "variables": vars})
+	run := NewRun()
+	h := &c14Holder{}
+	ctx := context.WithValue(WithRun(context.Background(), run), c14Key{}, h)
+	req := httptest.NewRequest(http.MethodPost, "/query", bytes.NewReader(body)).WithContext(ctx)
+	req.Header.Set("Content-Type", "application/json")
+	req.Header.Set(c14LimitHeader, strconv.FormatInt(lim, 10))
+	rec := httptest.NewRecorder()
+	r := C14Run{Limit: lim, Errors: []string{}, Codes: []string{}}
+	func() {
+		defer func() {
+			if p := recover(); p != nil {
+				r.Bad = fmt.Sprintf("panic escaped ServeHTTP: %v", p)
+			}
+		}()
+		srv.ServeHTTP(rec, req)
+	}()
+	run.Finish()
+	r.Status = rec.Code
+	var out struct {
+		Data   json.RawMessage `json:"data"`
+		Errors []struct {
+			Message    string         `json:"message"`
+			Extensions map[string]any `json:"extensions"`
+		} `json:"errors"`
+	}
+	if err := json.Unmarshal(rec.Body.Bytes(), &out); err != nil {
+		r.Bad = "response is not JSON: " + err.Error() + ": " + rec.Body.String()
+	}
+	r.HasData = len(out.Data) > 0 && string(out.Data) != "null"
+	for _, e := range out.Errors {
+		r.Errors = append(r.Errors, e.Message)
+		code, _ := e.Extensions["code"].(string)
+		r.Codes = append(r.Codes, code)
+	}
+	r.Resolved = h.execs
+	for _, ev := range run.Events() {
+		if ev.E == "Start" {
+			r.Resolved++
+		}
+	}
+	r.StatsSeen, r.StatsCx, r.StatsLimit = h.statsSeen, h.statsCx, h.statsLim
+	return r
+}
+
 // C14Exec runs one case against the real code: complexity.Calculate, then one
-// HTTP POST per limit against handler.New(es) + the ComplexityLimit extension.
+// HTTP POST per limit against handler.New(es) + the ComplexityLimit extension;
+// in history mode one server receives the steps in order.
 func C14Exec(es graphql.ExecutableSchema, c *C14Case) (res *C14Result) {
-	res = &C14Result{ID: c.ID, Runs: []C14Run{}}
+	res = &C14Result{ID: c.ID, Runs: []C14Run{}, Calcs: []int64{}}
 	defer func() {
 		if r := recover(); r != nil {
 			res.Err = fmt.Sprintf("harness panic: %v", r)
 		}
 	}()
-	// (a) complexity.Calculate
-	func() {
-		defer func() {
-			if r := recover(); r != nil {
-				res.CalcErr = fmt.Sprintf("panic: %v", r)
+	if len(c.Hist) > 0 {
+		srv := c14Server(es, false, 0)
+		switch c.Cache {
+		case "map":
+			srv.SetQueryCache(graphql.MapCache[*ast.QueryDocument]{})
+		case "lru":
+			srv.SetQueryCache(lru.New[*ast.QueryDocument](1000))
+		case "lru1":
+			srv.SetQueryCache(lru.New[*ast.QueryDocument](1))
+		}
+		for _, st := range c.Hist {
+			q := st.Query
+			if q == "" {
+				q = c.Query
 			}
-		}()
-		doc, errs := gqlparser.LoadQuery(es.Schema(), c.Query)
-		if errs != nil {
-			res.Err = "query does not validate: " + errs.Error()
-			return
+			calc, cerr, err := c14Calc(es, q, c.OpName, st.Vars)
+			if err != "" {
+				res.Err = err
+				return res
+			}
+			if cerr != "" {
+				res.CalcErr = cerr
+			}
+			res.Calcs = append(res.Calcs, calc)
+			res.Runs = append(res.Runs, c14Request(srv, q, c.OpName, st.Vars, st.Limit))
 		}
-		op := doc.Operations.ForName(c.OpName)
-		if op == nil {
-			res.Err = "operation not found: " + c.OpName
-			return
-		}
-		// decode variables like the POST transport does (json.Number)
-		var rawVars map[string]any
-		vb, _ := json.Marshal(c.Vars)
-		dec := json.NewDecoder(bytes.NewReader(vb))
-		dec.UseNumber()
-		if err := dec.Decode(&rawVars); err != nil {
-			res.Err = "variables: " + err.Error()
-			return
-		}
-		vars, err := validator.VariableValues(es.Schema(), op, rawVars)
-		if err != nil {
-			res.Err = "variables: " + err.Error()
-			return
-		}
-		res.Calc = int64(complexity.Calculate(context.Background(), es, op, vars))
-	}()
-	if res.Err != "" {
+		return res
+	}
+	// (a) complexity.Calculate
+	var err string
+	res.Calc, res.CalcErr, err = c14Calc(es, c.Query, c.OpName, c.Vars)
+	if err != "" {
+		res.Err = err
 		return res
 	}
 	// (b) the server
-	body, _ := json.Marshal(map[string]any{"query": c.Query, "operationName": c.OpName, "variables": c.Vars})
 	var shared *handler.Server
 	if !c.Fixed {
 		shared = c14Server(es, false, 0)
@@ -242,48 +337,7 @@ func C14Exec(es graphql.ExecutableSchema, c *C14Case) (res *C14Result) {
 		if c.Fixed {
 			srv = c14Server(es, true, lim)
 		}
-		run := NewRun()
-		h := &c14Holder{}
-		ctx := context.WithValue(WithRun(context.Background(), run), c14Key{}, h)
-		req := httptest.NewRequest(http.MethodPost, "/query", bytes.NewReader(body)).WithContext(ctx)
-		req.Header.Set("Content-Type", "application/json")
-		req.Header.Set(c14LimitHeader, strconv.FormatInt(lim, 10))
-		rec := httptest.NewRecorder()
-		r := C14Run{Limit: lim, Errors: []string{}, Codes: []string{}}
-		func() {
-			defer func() {
-				if p := recover(); p != nil {
-					r.Bad = fmt.Sprintf("panic escaped ServeHTTP: %v", p)
-				}
-			}()
-			srv.ServeHTTP(rec, req)
-		}()
-		run.Finish()
-		r.Status = rec.Code
-		var out struct {
-			Data   json.RawMessage `json:"data"`
-			Errors []struct {
-				Message    string         `json:"message"`
-				Extensions map[string]any `json:"extensions"`
-			} `json:"errors"`
-		}
-		if err := json.Unmarshal(rec.Body.Bytes(), &out); err != nil {
-			r.Bad = "response is not JSON: " + err.Error() + ": " + rec.Body.String()
-		}
-		r.HasData = len(out.Data) > 0 && string(out.Data) != "null"
-		for _, e := range out.Errors {
-			r.Errors = append(r.Errors, e.Message)
-			code, _ := e.Extensions["code"].(string)
-			r.Codes = append(r.Codes, code)
-		}
-		r.Resolved = h.execs
-		for _, ev := range run.Events() {
-			if ev.E == "Start" {
-				r.Resolved++
-			}
-		}
-		r.StatsSeen, r.StatsCx, r.StatsLimit = h.statsSeen, h.statsCx, h.statsLim
-		res.Runs = append(res.Runs, r)
+		res.Runs = append(res.Runs, c14Request(srv, c.Query, c.OpName, c.Vars, lim))
 	}
 	return res
 }
